@@ -2,6 +2,7 @@ package c35
 
 import (
 	"math"
+	"math/bits"
 	"strings"
 
 	"google.golang.org/protobuf/proto"
@@ -19,7 +20,25 @@ type ctx struct {
 	depth int // nesting depth of the declaration the operator changed (0 = file level)
 }
 
-func (x *ctx) n(lo, hi int, label string) int { return rapid.IntRange(lo, hi).Draw(x.t, label) }
+// n draws an integer of [lo, hi] uniformly: rapid's integer generators favour small values, which
+// would starve the later variants of an operator; single bits are uniform (and shrink to lo).
+func (x *ctx) n(lo, hi int, label string) int {
+	if hi < lo {
+		panic("harness: empty range for " + label)
+	}
+	span := hi - lo + 1
+	if span == 1 {
+		return lo
+	}
+	v := 0
+	for i, k := 0, bits.Len(uint(span-1))+5; i < k; i++ {
+		v <<= 1
+		if rapid.Bool().Draw(x.t, label) {
+			v |= 1
+		}
+	}
+	return lo + v%span
+}
 
 func choose[T any](x *ctx, xs []T, label string) (T, bool) {
 	var zero T
@@ -602,15 +621,33 @@ func ops() []op {
 			switch x.n(0, 3, "how") {
 			case 0: // field name is not the lower-cased type name
 				g.f.Name = proto.String("c35_renamed_group")
-			case 1: // the type lives in another scope
+			case 1: // the type lives in another scope: a copy of the group's message, same name, nested somewhere else
+				var gm *dp
+				for _, n := range g.m.m.NestedType {
+					if "."+join(g.m.full, n.GetName()) == g.f.GetTypeName() {
+						gm = n
+					}
+				}
+				if gm == nil {
+					return false
+				}
 				others := filter(plainMessages(x.f), func(r msgRef) bool {
-					return r.full[:strings.LastIndexByte(r.full, '.')+1] != g.m.full+"."
+					if r.m == g.m.m || r.m == gm {
+						return false
+					}
+					for _, nm := range childNames(r.m) {
+						if nm == gm.GetName() {
+							return false
+						}
+					}
+					return true
 				})
 				o, ok := choose(x, others, "other")
 				if !ok {
 					return false
 				}
-				g.f.TypeName = proto.String("." + o.full)
+				o.m.NestedType = append(o.m.NestedType, &dp{Name: proto.String(gm.GetName()), Field: []*fldp{newField("a", 1)}})
+				g.f.TypeName = proto.String("." + join(o.full, gm.GetName()))
 			case 2: // type name starting with a lower-case letter
 				for _, n := range g.m.m.NestedType {
 					if "."+join(g.m.full, n.GetName()) == g.f.GetTypeName() {
@@ -622,26 +659,36 @@ func ops() []op {
 					}
 				}
 				return false
-			case 3: // the type cannot be resolved: a placeholder cannot stand in for a group
-				g.f.TypeName = proto.String(".c35.no.Such")
+			case 3: // the type cannot be resolved (a name of the right shape in the right scope): a placeholder cannot stand in for a group
+				g.f.TypeName = proto.String("." + join(g.m.full, "C35Missing"))
+				g.f.Name = proto.String("c35missing")
 			}
 			return true
 		}},
 		{name: "proto3-group", syn: synP3, want: "invalid under proto3 semantics", apply: func(x *ctx) bool {
+			// a group field that would be fine in proto2: type nested in the same message, upper-case initial,
+			// field named with the lower-cased type name
+			usable := func(r msgRef) []*dp {
+				names := map[string]bool{}
+				for _, nm := range childNames(r.m) {
+					names[nm] = true
+				}
+				return filter(r.m.NestedType, func(n *dp) bool {
+					nm := n.GetName()
+					return !n.GetOptions().GetMapEntry() && nm != "" && nm[0] >= 'A' && nm[0] <= 'Z' && !names[strings.ToLower(nm)]
+				})
+			}
 			r, ok := choose(x, filter(plainMessages(x.f), func(r msgRef) bool {
 				_, free := freeNumber(r.m)
-				return free && len(filter(r.m.NestedType, func(n *dp) bool { return !n.GetOptions().GetMapEntry() })) > 0
+				return free && len(usable(r)) > 0
 			}), "msg")
 			if !ok {
 				return false
 			}
-			nested := filter(r.m.NestedType, func(n *dp) bool { return !n.GetOptions().GetMapEntry() })
-			if len(nested) == 0 {
-				return false
-			}
+			nested := usable(r)
 			n := nested[x.n(0, len(nested)-1, "type")]
 			num, _ := freeNumber(r.m)
-			r.m.Field = append(r.m.Field, &fldp{Name: proto.String("c35g_" + strings.ToLower(n.GetName())), Number: proto.Int32(num), Label: lOpt(), Type: tGrp(), TypeName: proto.String("." + join(r.full, n.GetName()))})
+			r.m.Field = append(r.m.Field, &fldp{Name: proto.String(strings.ToLower(n.GetName())), Number: proto.Int32(num), Label: lOpt(), Type: tGrp(), TypeName: proto.String("." + join(r.full, n.GetName()))})
 			x.depth = r.depth + 1
 			return true
 		}},
@@ -1219,7 +1266,12 @@ func ops() []op {
 				x.depth = e.depth
 				return true
 			}
-			r, ok := choose(x, filter(fieldsOf(x.f, false), func(r fieldRef) bool { _, isMap := isMapField(r); return !isMap }), "field")
+			r, ok := choose(x, filter(fieldsOf(x.f, false), func(r fieldRef) bool {
+				// features.field_presence = LEGACY_REQUIRED replaces whatever the label says (observed: protodesc
+				// then never looks at the label), so the label is only definitely wrong without it
+				_, isMap := isMapField(r)
+				return !isMap && !legacyRequired(x.f, r.f)
+			}), "field")
 			if !ok {
 				return false
 			}
